@@ -183,3 +183,52 @@ Proof.
   - exact AGD.
   - exact UA.
 Qed.
+
+(* well-formedness of the result of __save_new *)
+Require Import Proofs.Fam_mp4_newwf.
+
+Theorem c10_parents_consistent_new f ilst_data cb f' atoms path last rest it :
+  mp4_wf f = true -> mp4_atoms f = Ok atoms -> mp4_path atoms ILST_PATH = None ->
+  mp4_insert_path atoms = Some path -> rev path = last :: rest ->
+  (forall T, In T (all_tabs atoms) -> ma_off T <> ma_off last + ma_hdr last) ->
+  ilst_wellformed ilst_data it -> mp4_height it <= 62 -> zlen ilst_data < 4611686018427387904 ->
+  mp4_save f ilst_data cb = Ok f' ->
+  exists atoms', mp4_atoms f' = Ok atoms' /\ mp4_forest_ok f' true atoms' 0 (zlen f') = true /\
+                 mp4_forest_height atoms' <= MP4_MAXDEPTH.
+Proof.
+  intros Hwf Ha Hnone Hip Hlast Hfirst Hit Hih Hsmall Hs. destruct (wf_forest f atoms Hwf Ha) as (H1 & H2).
+  pose proof (wf_height f atoms Hwf Ha) as Hh.
+  unfold mp4_save in Hs. rewrite Ha, Hnone in Hs.
+  destruct (save_new_unfold f atoms ilst_data cb f' Hs) as (path' & last' & rest' & Hip' & Hlast' & Hfit & f2 & R1 & R2).
+  rewrite Hip in Hip'. inversion Hip'; subst path'. rewrite Hlast in Hlast'. inversion Hlast'; subst last' rest'.
+  cbv zeta in *.
+  assert (R1' : mp4_update_parents (zlen (mp4_new_insert cb f last ilst_data) - 0)
+                  (splice f (ma_off last + ma_hdr last) 0 (mp4_new_insert cb f last ilst_data)) (map ma_off path) = Ok f2)
+    by (rewrite Z.sub_0_r; exact R1).
+  assert (R2' : mp4_update_offsets atoms (zlen (mp4_new_insert cb f last ilst_data) - 0) (ma_off last + ma_hdr last) f2 = Ok f')
+    by (rewrite Z.sub_0_r; exact R2).
+  assert (Hfin : exists atoms', mp4_forest_ok f' true atoms' 0 (zlen f') = true /\
+                   mp4_forest_height atoms' <= Z.max (mp4_forest_height atoms) (3 + Z.max 1 (mp4_height it))).
+  { destruct (insert_path_cases atoms path Hip) as [(moov & udta & km & -> & C1 & K1 & C2)|(moov & -> & C1)].
+    - cbn in Hlast. inversion Hlast; subst last rest.
+      destruct (child_split _ _ _ C1) as (T1 & T2 & E1 & N1 & _). destruct (child_split _ _ _ C2) as (M1 & M2 & E2 & N2 & _).
+      subst km.
+      assert (Ku : exists K, ma_kids udta = Some K).
+      { rewrite E1 in H1. pose proof (forest_ok_split _ _ _ _ _ _ _ H1) as (_ & Hm & _).
+        destruct (atom_ok_kids _ _ _ _ Hm K1) as (_ & Hk). pose proof (forest_ok_split _ _ _ _ _ _ _ Hk) as (_ & Hu & _).
+        apply (proj1 (atom_ok_kids_iff _ _ _ Hu)). rewrite N2. reflexivity. }
+      destruct Ku as (K & Ku).
+      exact (new_wellformed_udta f atoms H1 H2 cb ilst_data it Hit Hsmall moov udta T1 T2 M1 M2 K [moov] f2 f'
+               Hip E1 N1 K1 N2 Ku eq_refl Hfirst R1' R2').
+    - cbn in Hlast. inversion Hlast; subst last rest.
+      destruct (child_split _ _ _ C1) as (T1 & T2 & E1 & N1 & _).
+      assert (Km : exists K, ma_kids moov = Some K).
+      { rewrite E1 in H1. pose proof (forest_ok_split _ _ _ _ _ _ _ H1) as (_ & Hm & _).
+        apply (proj1 (atom_ok_kids_iff _ _ _ Hm)). rewrite N1. reflexivity. }
+      destruct Km as (K & Km).
+      exact (new_wellformed_moov f atoms H1 H2 cb ilst_data it Hit Hsmall moov T1 T2 K [] f2 f'
+               Hip E1 N1 Km eq_refl Hfirst R1' R2'). }
+  destruct Hfin as (atoms' & W & HH). pose proof (height_pos it).
+  assert (HH' : mp4_forest_height atoms' <= MP4_MAXDEPTH) by (unfold MP4_MAXDEPTH in *; lia).
+  exists atoms'. split; [apply parse_complete; assumption|]. split; assumption.
+Qed.
